@@ -57,12 +57,16 @@ def strategies():
     from hypothesis import strategies as st
 
     timeouts = st.fixed_dictionaries({"acse": st.sampled_from([1, 2]), "dimse": st.sampled_from([1, 2]), "network": st.sampled_from([2, 4]), "connection": st.just(2)})
-    schedule = st.fixed_dictionaries({
-        "policy": st.sampled_from(["fifo", "random", "random", "pct"]),
-        "seed": st.integers(0, 10**6),
-        "preemptions": st.lists(st.tuples(st.integers(0, 2500), st.integers(0, 6)).map(list), max_size=8),
-        "nudges": st.lists(st.tuples(st.integers(0, 2500), st.sampled_from(["before", "at", "after", "wall+", "wall-"])).map(list), max_size=4),
-    })
+    # steps at which the schedule is perturbed: biased to the first steps (thread start-up / negotiation races) and to the whole run
+    step = st.one_of(st.integers(0, 40), st.integers(0, 300), st.integers(0, 2500))
+    # (policy, drift) combinations, the most perturbing first (Hypothesis favours the first elements early in a run)
+    combos = [("pct", 0.3), ("random", 0.05), ("pct", 0.05), ("random", 0.0), ("pct", 0.0), ("fifo", 0.0), ("random", 0.3), ("fifo", 0.05)]
+    schedule = st.builds(
+        lambda c, seed, pre, nud: {"policy": c[0], "drift": c[1], "seed": seed, "preemptions": pre, "nudges": nud},
+        st.sampled_from(combos), st.integers(0, 10**6),
+        st.lists(st.tuples(step, st.integers(0, 6)).map(list), max_size=8),
+        st.lists(st.tuples(step, st.sampled_from(["before", "at", "after", "after", "wall+", "wall-"])).map(list), max_size=6),
+    )
     delay = st.sampled_from([0, 0, 0.1, 0.6, 1.2, 2.5])
     do = st.sampled_from([None, None, None, "abort", "raise"])
     handlers = st.fixed_dictionaries({
@@ -75,6 +79,10 @@ def strategies():
     end = st.sampled_from([["release"], ["release"], ["abort"], ["idle"], ["sleep", 6.0]])
     t_opt = st.one_of(st.none(), st.none(), st.sampled_from([0.0, 0.05, 0.2, 0.25, 0.6, 1.0, 2.0, 3.5]))
 
+    # abort() from another thread released at the moment a given notification is being handled (None = not used)
+    on_evt = st.sampled_from([None, None, None, None, "EVT_RELEASED", "EVT_ESTABLISHED", "EVT_ACCEPTED", "EVT_REQUESTED", "EVT_ABORTED", "EVT_DIMSE_RECV", "EVT_ACSE_RECV"])
+    on_evt_rq = st.sampled_from([None, None, None, None, None, "EVT_RELEASED", "EVT_ESTABLISHED", "EVT_ACSE_RECV", "EVT_DIMSE_SENT"])
+
     @st.composite
     def pair(draw):
         script = [["associate"]] + draw(st.lists(op, max_size=3)) + [draw(end)]
@@ -82,8 +90,8 @@ def strategies():
             "family": "pair",
             "timeouts": draw(timeouts),
             "max_steps": 20000, "quantum": 0.1,
-            "acceptor": {"kind": "pynetdicom", "handlers": draw(handlers), "shutdown_at": draw(t_opt)},
-            "requestors": [{"kind": "pynetdicom", "script": script, "abort_at": draw(t_opt)}],
+            "acceptor": {"kind": "pynetdicom", "handlers": draw(handlers), "shutdown_at": draw(t_opt), "abort_on": draw(on_evt)},
+            "requestors": [{"kind": "pynetdicom", "script": script, "abort_at": draw(t_opt), "abort_on": draw(on_evt_rq)}],
             "schedule": draw(schedule),
         }
 
